@@ -317,6 +317,10 @@ type Type struct {
 	Type            []*Type    `yang:"type"` // len > 1 only when Name is "union"
 
 	YangType *YangType
+
+	// resolveErrs are the errors found when YangType was resolved; they are
+	// reported again by every later call of resolve.
+	resolveErrs []error
 }
 
 func (Type) Kind() string             { return "type" }
